@@ -1045,3 +1045,210 @@ func g25FieldRendering(r *Repo, rep *Report) {
 		rep.fail(Finding{Rule: "G25", Key: "G25|field-rendering|floor", Kind: "undecided", Msg: "no function of package derive turns struct fields into text lines (FieldStrings was confirmed by hand)"})
 	}
 }
+
+// g28BypassQualifier — the text derived GoString prints is pasted into another package's source, where a type of package P is
+// reached as P's *package name* (`geo.Point` for package geo at demo/geo/v2), whatever the directory is called. bypassQual, the
+// qualifier behind TypeStringBypass, must therefore return the package's Name() on every path.
+func g28BypassQualifier(r *Repo, rep *Report) {
+	fi := r.lookup("derive.bypassQual")
+	if fi == nil {
+		rep.fail(Finding{Rule: "G28", Key: "G28|bypass-qualifier|missing", Kind: "undecided", Msg: "derive.bypassQual not found"})
+		return
+	}
+	info := fi.Pkg.TypesInfo
+	var param types.Object
+	if fl := fi.Decl.Type.Params.List; len(fl) == 1 && len(fl[0].Names) == 1 {
+		param = info.Defs[fl[0].Names[0]]
+	}
+	n, bad := 0, false
+	ast.Inspect(fi.Decl.Body, func(m ast.Node) bool {
+		ret, ok := m.(*ast.ReturnStmt)
+		if !ok || len(ret.Results) != 1 {
+			return true
+		}
+		n++
+		okRet := false
+		if c, ok := ast.Unparen(ret.Results[0]).(*ast.CallExpr); ok && len(c.Args) == 0 {
+			if sel, ok := c.Fun.(*ast.SelectorExpr); ok && sel.Sel.Name == "Name" {
+				if id, ok := ast.Unparen(sel.X).(*ast.Ident); ok && param != nil && info.Uses[id] == param {
+					okRet = true
+				}
+			}
+		}
+		if !okRet {
+			bad = true
+			rep.fail(Finding{Rule: "G28", Key: "G28|bypass-qualifier|not-package-name", Where: []string{r.pos(ret.Pos())},
+				Msg: "bypassQual can return " + exprStr(ret.Results[0]) + " instead of the package's name: the text of derived GoString then qualifies a type with something that is not the identifier under which its package is imported (v2.Point for package geo at demo/geo/v2), and does not compile"})
+		}
+		return true
+	})
+	if n == 0 {
+		rep.fail(Finding{Rule: "G28", Key: "G28|bypass-qualifier|floor", Kind: "undecided", Where: []string{r.pos(fi.Decl.Pos())}, Msg: "bypassQual has no return statement"})
+		return
+	}
+	if !bad {
+		rep.pass("G28")
+	}
+}
+
+// g29EqDefaults — eq decides whether two argument type lists denote the same generated function. Constant arguments have untyped
+// types; AssignableTo is asymmetric on them (an untyped int is assignable to float64, a float64 is not assignable to an untyped
+// int), so both operands must be defaulted first (types.Default), as the printed signature is.
+func g29EqDefaults(r *Repo, rep *Report) {
+	fi := r.lookup("derive.eq")
+	if fi == nil {
+		rep.fail(Finding{Rule: "G16", Key: "G16|eq|missing", Kind: "undecided", Msg: "derive.eq not found"})
+		return
+	}
+	info := fi.Pkg.TypesInfo
+	n, bad := 0, false
+	ast.Inspect(fi.Decl.Body, func(m ast.Node) bool {
+		c, ok := m.(*ast.CallExpr)
+		if !ok {
+			return true
+		}
+		fn, ok := callee(info, c).(*types.Func)
+		if !ok || fn.Pkg() == nil || fn.Pkg().Path() != "go/types" || (fn.Name() != "AssignableTo" && fn.Name() != "Identical" && fn.Name() != "ConvertibleTo") {
+			return true
+		}
+		n++
+		for _, a := range c.Args {
+			ac, isCall := ast.Unparen(a).(*ast.CallExpr)
+			isDefault := false
+			if isCall {
+				if f2, ok := callee(info, ac).(*types.Func); ok && f2.Pkg() != nil && f2.Pkg().Path() == "go/types" && f2.Name() == "Default" {
+					isDefault = true
+				}
+			}
+			if !isDefault {
+				bad = true
+				rep.fail(Finding{Rule: "G16", Key: "G16|eq|undefaulted", Where: []string{r.pos(c.Pos())},
+					Msg: "eq compares argument types without types.Default: the types of constant arguments are untyped (deriveCompare(1, 2)), and " + fn.Name() + " is asymmetric on them, so a call with constants next to a typed call of the same plugin is taken for the same function when it is a conflict, or for another one when it is a duplicate"})
+				return false
+			}
+		}
+		return true
+	})
+	if n == 0 {
+		rep.fail(Finding{Rule: "G16", Key: "G16|eq|no-comparison", Kind: "undecided", Where: []string{r.pos(fi.Decl.Pos())}, Msg: "eq does not compare types with go/types"})
+		return
+	}
+	if !bad {
+		rep.pass("G16")
+	}
+}
+
+// g30GeneratorStateless — a plugin's generator value is created once per package (New) and then asked to Generate one function
+// after the other. Whatever Generate emits must be a function of the types it is given (and of the name tables and printer it
+// shares with the driver): a field of the generator that a method other than New writes (a counter, a cache, a "last seen" value)
+// carries over from one generated function to the next, so the text of a function depends on which functions the package
+// generated before it.
+func g30GeneratorStateless(r *Repo, rep *Report) {
+	n := 0
+	for _, fi := range r.sortedFuncs() {
+		if !strings.HasPrefix(fi.Pkg.PkgPath, modPath+"/plugin/") {
+			continue
+		}
+		sig := fi.Fn.Type().(*types.Signature)
+		if sig.Recv() == nil {
+			continue
+		}
+		rt := sig.Recv().Type()
+		if p, ok := rt.(*types.Pointer); ok {
+			rt = p.Elem()
+		}
+		nt, ok := rt.(*types.Named)
+		if !ok || nt.Obj().Name() != "gen" {
+			continue
+		}
+		n++
+		info := fi.Pkg.TypesInfo
+		recvObj := types.Object(nil)
+		if fi.Decl.Recv != nil && len(fi.Decl.Recv.List) == 1 && len(fi.Decl.Recv.List[0].Names) == 1 {
+			recvObj = info.Defs[fi.Decl.Recv.List[0].Names[0]]
+		}
+		if recvObj == nil {
+			continue
+		}
+		isRecvField := func(e ast.Expr) bool {
+			for {
+				switch x := ast.Unparen(e).(type) {
+				case *ast.SelectorExpr:
+					if id, ok := ast.Unparen(x.X).(*ast.Ident); ok && info.Uses[id] == recvObj {
+						if s, ok := info.Selections[x]; ok && s.Kind() == types.FieldVal {
+							return true
+						}
+					}
+					e = x.X
+					continue
+				case *ast.IndexExpr:
+					e = x.X
+					continue
+				case *ast.StarExpr:
+					e = x.X
+					continue
+				}
+				return false
+			}
+		}
+		ast.Inspect(fi.Decl.Body, func(m ast.Node) bool {
+			var lhs []ast.Expr
+			switch x := m.(type) {
+			case *ast.AssignStmt:
+				if x.Tok != token.DEFINE {
+					lhs = x.Lhs
+				}
+			case *ast.IncDecStmt:
+				lhs = []ast.Expr{x.X}
+			}
+			for _, l := range lhs {
+				if isRecvField(l) {
+					rep.fail(Finding{Rule: "G30", Key: "G30|generator-state|" + funcKey(fi.Fn), Where: []string{r.pos(l.Pos())},
+						Msg: funcKey(fi.Fn) + " writes the generator field " + exprStr(l) + ": the generator lives as long as the package, so the value carries over from one generated function to the next and the code emitted for a function depends on which functions were generated before it (a counter that is never reset makes the second function wait for more goroutines than it starts)"})
+				}
+			}
+			return true
+		})
+	}
+	rep.analysed("generator_methods", n)
+	if n < 60 {
+		rep.fail(Finding{Rule: "G30", Key: "G30|generator-state|floor", Kind: "undecided", Msg: fmt.Sprintf("only %d methods of plugin generators found (more than 60 confirmed by hand)", n)})
+	}
+	rep.pass("G30")
+}
+
+// g31PackageOrder — the loader lists an external test package (package p_test) *before* the package it tests (created packages
+// first, imported ones after). Both live in one directory and share one derived.gen.go, and a package without derive calls ends
+// with Delete: only in the loader's order does the package with the calls write the file last. Reordering the initial packages
+// (sorting them by path puts p before p_test) lets the test package delete the file that was just generated.
+func g31PackageOrder(r *Repo, rep *Report) {
+	n := 0
+	for _, b := range r.bodies() {
+		if b.Pkg.Name != "derive" {
+			continue
+		}
+		info := b.Pkg.TypesInfo
+		inspectOwn(b.Block, func(m ast.Node) bool {
+			c, ok := m.(*ast.CallExpr)
+			if !ok || len(c.Args) == 0 {
+				return true
+			}
+			fn, ok := callee(info, c).(*types.Func)
+			if !ok || fn.Pkg() == nil || (fn.Pkg().Path() != "sort" && fn.Pkg().Path() != "slices") {
+				return true
+			}
+			t := info.TypeOf(c.Args[0])
+			if t == nil || !strings.Contains(t.String(), "loader.PackageInfo") {
+				return true
+			}
+			n++
+			rep.fail(Finding{Rule: "G31", Key: "G31|package-order|" + b.Name, Where: []string{r.pos(c.Pos())},
+				Msg: b.Name + " reorders the initial packages: the loader lists an external test package before the package it shares a directory (and a derived.gen.go) with, so that the package with the derive calls writes the file last; in another order the test package, which has no derive calls, deletes the file that was just generated"})
+			return true
+		})
+	}
+	rep.analysed("package_reorderings", n)
+	if n == 0 {
+		rep.pass("G31")
+	}
+}
